@@ -38,7 +38,7 @@
 
    Intended design vs. the code as found (named deviations, Dev record):
      lbr    logs emitted by a body/step that then fails are delivered before the error (intended TRUE;
-            the code drops them for stream init and process(), on every transport -- C08)
+            the code as found dropped them for stream init and process(), on every transport -- fixed since)
      xdrop  the exchange steps whose logs emitted after the data batch are NOT delivered (intended {}; the HTTP client
             discards the rest of the response after the data batch -- except when that step's output was
             externalized, because resolving the pointer replays the uploaded logs; hence a set of steps)
@@ -69,27 +69,37 @@ IsSubseq(a, b) == IF a = <<>> THEN TRUE ELSE IF b = <<>> THEN FALSE
 
 \* ------------------------------------------------------------------------------------------ grammar
 Levels == {"TRACE", "DEBUG", "INFO", "WARN", "ERROR"}          \* EXCEPTION is the error channel, not a log level
-ErrTypes == {"ValueError", "TypeError", "AppError"}
+\* exception classes a body may raise (concretised with different message shapes: short text, a long text, a
+\* multi-line text, an empty message, a quoted key): the type name and the message must travel unchanged
+ErrTypes == {"ValueError", "TypeError", "AppError", "KeyError", "ArrowInvalid", "AppEmpty"}
 
 St(pre, emit, post, end, err) == [pre |-> pre, emit |-> emit, post |-> post, end |-> end, err |-> err]
-\* emit: "none" | "plain" (rows, no metadata) | "meta" (rows + application metadata) | "zrow" (zero rows + application metadata)
+\* emit: "none" | "plain" (rows, no metadata) | "meta" (rows + application metadata)
+\*       | "zrow" (zero rows + application metadata) | "zbare" (zero rows, no metadata at all)
 \* end:  "cont" | "finish" | "raise"
+\* A step that emits and then fails (raise, or finish() on an exchange) delivers its logs and the error, not the batch:
+\* the batch of a failed step was never handed over (the collector of a failed step only flushes its logs).
 Fin == St(<<>>, "none", <<>>, "finish", "")
 Plain == St(<<>>, "plain", <<>>, "cont", "")
 
 NTRich == {St(pre, e, post, "cont", "") : pre \in {<<>>, <<"DEBUG", "WARN">>}, e \in {"plain", "meta"},
                                           post \in {<<>>, <<"ERROR">>}}
-          \cup {St(<<"INFO">>, "plain", <<>>, "cont", ""), St(<<>>, "zrow", <<>>, "cont", "")}
+          \cup {St(<<"INFO">>, "plain", <<>>, "cont", ""), St(<<>>, "zrow", <<>>, "cont", ""), St(<<>>, "zbare", <<>>, "cont", "")}
 TRich == { Fin, St(<<"INFO">>, "none", <<>>, "finish", ""), St(<<"TRACE", "ERROR">>, "none", <<>>, "finish", ""),
            St(<<>>, "plain", <<>>, "finish", ""), St(<<"WARN">>, "meta", <<>>, "finish", ""),
            St(<<>>, "plain", <<"DEBUG">>, "finish", ""), St(<<>>, "zrow", <<>>, "finish", ""),
+           St(<<>>, "zbare", <<"INFO">>, "finish", ""),
            St(<<>>, "none", <<>>, "raise", "ValueError"), St(<<"INFO">>, "none", <<>>, "raise", "TypeError"),
            St(<<"DEBUG", "WARN">>, "none", <<>>, "raise", "AppError"),
+           St(<<>>, "none", <<>>, "raise", "AppEmpty"),
+           St(<<"INFO">>, "plain", <<"WARN">>, "raise", "KeyError"),          \* emit, then fail: logs + error, no batch
+           St(<<>>, "meta", <<>>, "raise", "ArrowInvalid"),
            St(<<>>, "none", <<>>, "cont", ""),                       \* nothing at all: "no data batch was emitted"
            St(<<"INFO">>, "none", <<>>, "cont", "") }                \* log-only step: logs, then that error
 NTSmall == {Plain, St(<<"INFO">>, "plain", <<>>, "cont", ""), St(<<>>, "meta", <<"WARN">>, "cont", "")}
 TSmall == {Fin, St(<<"DEBUG">>, "none", <<>>, "finish", ""), St(<<>>, "plain", <<>>, "finish", ""),
            St(<<>>, "none", <<>>, "raise", "ValueError"), St(<<"ERROR">>, "none", <<>>, "raise", "AppError"),
+           St(<<>>, "plain", <<>>, "raise", "TypeError"),
            St(<<"TRACE">>, "none", <<>>, "cont", "")}
 NT(al) == IF al = "rich" THEN NTRich ELSE NTSmall
 TT(al) == IF al = "rich" THEN TRich ELSE TSmall
@@ -102,42 +112,49 @@ NTPrefix(al) == IF al = "rich"
 \* step scripts: only the last step may end the stream
 Bodies(al, maxSteps) == {<<>>} \cup {p \o <<t>> : p \in SeqsUpTo(NTPrefix(al), maxSteps - 1), t \in NT(al) \cup TT(al)}
 
-\* a stream method = frame (header?, output columns, init logs) x kind x body
-Frames == { [hdr |-> FALSE, cols |-> "one", ilogs |-> <<>>],        [hdr |-> TRUE, cols |-> "one", ilogs |-> <<"INFO">>],
-            [hdr |-> FALSE, cols |-> "zero", ilogs |-> <<"WARN", "DEBUG">>], [hdr |-> TRUE, cols |-> "zero", ilogs |-> <<>>] }
+\* a stream method = frame (header kind, output columns, init logs) x kind x body
+\* header: "none" | "full" (a dataclass with fields) | "empty" (a field-less dataclass: a zero-column header batch)
+Frames == { [hdr |-> "none", cols |-> "one", ilogs |-> <<>>],        [hdr |-> "full", cols |-> "one", ilogs |-> <<"INFO">>],
+            [hdr |-> "none", cols |-> "zero", ilogs |-> <<"WARN", "DEBUG">>], [hdr |-> "full", cols |-> "zero", ilogs |-> <<>>],
+            [hdr |-> "empty", cols |-> "zero", ilogs |-> <<"INFO">>] }
 Meth(kind, f, iend, ierr, res, steps) ==
   [kind |-> kind, hdr |-> f.hdr, cols |-> f.cols, ilogs |-> f.ilogs, iend |-> iend, ierr |-> ierr, res |-> res, steps |-> steps]
-\* an exchange step that emits and then calls finish() fails after an emit: whether that batch counts as
-\* emitted is not something the statement settles, so such steps are outside the enumerated space
-ExchOK(b) == \A i \in 1..Len(b) : b[i].end = "finish" => b[i].emit = "none"
 StreamMethods(al, maxSteps) ==
-       {Meth("prod", f, "ok", "", "na", b) : f \in Frames, b \in Bodies(al, maxSteps)}
-  \cup {Meth("exch", f, "ok", "", "na", b) : f \in Frames, b \in {x \in Bodies(al, maxSteps) : ExchOK(x)}}
-InitRaise == {Meth(k, [hdr |-> h, cols |-> "one", ilogs |-> il], "raise", IF h THEN "TypeError" ELSE "ValueError", "na", <<>>) :
-                k \in {"prod", "exch"}, h \in BOOLEAN, il \in {<<>>, <<"INFO">>}}
-UFrame(il) == [hdr |-> FALSE, cols |-> "one", ilogs |-> il]
+  {Meth(k, f, "ok", "", "na", b) : k \in {"prod", "exch"}, f \in Frames, b \in Bodies(al, maxSteps)}
+InitRaise == {Meth(k, [hdr |-> h, cols |-> "one", ilogs |-> il], "raise", IF h = "full" THEN "TypeError" ELSE "ValueError", "na", <<>>) :
+                k \in {"prod", "exch"}, h \in {"none", "full"}, il \in {<<>>, <<"INFO">>}}
+UFrame(il) == [hdr |-> "none", cols |-> "one", ilogs |-> il]
 ULogs == {<<>>, <<"INFO">>, <<"DEBUG", "ERROR">>}
+\* result: "int" | "big" (a long string) | "void" (declared None) | "opt" (declared `int | None`, legitimately returns None)
 UnaryMethods == {Meth("unary", UFrame(il), "ok", "", r, <<>>) : il \in ULogs, r \in {"int", "big", "void"}}
-           \cup {Meth("unary", UFrame(<<>>), "raise", "ValueError", "int", <<>>),
+           \cup {Meth("unary", UFrame(<<"INFO">>), "ok", "", "opt", <<>>),
+                 Meth("unary", UFrame(<<>>), "raise", "ValueError", "int", <<>>),
                  Meth("unary", UFrame(<<"INFO">>), "raise", "AppError", "int", <<>>),
                  Meth("unary", UFrame(<<"DEBUG", "ERROR">>), "raise", "TypeError", "big", <<>>),
+                 Meth("unary", UFrame(<<>>), "raise", "ArrowInvalid", "void", <<>>),
                  Meth("unary", UFrame(<<>>), "none", "", "int", <<>>),          \* returns None where a value is declared
                  Meth("unary", UFrame(<<"INFO">>), "none", "", "int", <<>>)}
 
-\* client operations worth distinguishing
-ProdOps(maxTicks) == {<<"i">>, <<"t", "i">>} \cup {Ticks(k) \o <<"c">> : k \in 0..maxTicks} \cup {<<"x">>, <<"t", "x">>}
-ExchOps(maxTicks) == {Ticks(k) \o <<"c">> : k \in 0..(maxTicks + 1)} \cup {<<"t", "x">>}
+\* client operations worth distinguishing: leave (close or cancel) after every number of ticks, iterate, tick then iterate
+ProdOps(maxTicks) == {<<"i">>, <<"t", "i">>} \cup {Ticks(k) \o <<e>> : k \in 0..maxTicks, e \in {"c", "x"}}
+ExchOps(maxTicks) == {Ticks(k) \o <<"c">> : k \in 0..(maxTicks + 1)} \cup {Ticks(k) \o <<"x">> : k \in 0..maxTicks}
 OpsFor(m, maxTicks) ==
   IF m.kind = "unary" THEN {<<>>}
   ELSE IF m.iend = "raise" THEN (IF m.kind = "prod" THEN {<<"c">>, <<"t", "c">>, <<"i">>} ELSE {<<"c">>, <<"t", "c">>})
   ELSE IF m.kind = "prod" THEN ProdOps(maxTicks) ELSE ExchOps(maxTicks)
-Desc(m, ops) == [m |-> m, ops |-> ops]
+\* how the call passes its arguments.  Every method is declared  m(x: int, tag: str = <default>, opt: int | None = None):
+\*   "x"  only the required argument (the declared defaults apply)     "xt" tag given     "xo" opt given
+\* The history does not depend on it (every log, error text, header and result echoes the arguments the body saw);
+\* the shape is a covering assignment over the calls, not an extra factor of the case space.
+ArgsOf(m, ops) == LET k == IF m.kind = "unary" THEN Len(m.ilogs) + Len(m.ierr) ELSE Len(ops) + Len(m.steps) IN
+                  IF k % 3 = 0 THEN "x" ELSE IF k % 3 = 1 THEN "xt" ELSE "xo"
+Desc(m, ops) == [m |-> m, ops |-> ops, args |-> ArgsOf(m, ops)]
 AllDescs(al, maxSteps, maxTicks) ==
   UNION {{Desc(m, o) : o \in OpsFor(m, maxTicks)} : m \in StreamMethods(al, maxSteps) \cup InitRaise \cup UnaryMethods}
 
 \* the multi-call slice: few call descriptors, every sequence of up to MaxCalls of them
-F1 == [hdr |-> FALSE, cols |-> "one", ilogs |-> <<>>]
-F2 == [hdr |-> TRUE, cols |-> "one", ilogs |-> <<"INFO">>]
+F1 == [hdr |-> "none", cols |-> "one", ilogs |-> <<>>]
+F2 == [hdr |-> "full", cols |-> "one", ilogs |-> <<"INFO">>]
 MultiDescs == {
   Desc(Meth("unary", UFrame(<<"INFO">>), "ok", "", "int", <<>>), <<>>),
   Desc(Meth("unary", UFrame(<<>>), "raise", "ValueError", "int", <<>>), <<>>),
@@ -157,8 +174,29 @@ Scripts(sl) == SeqsUpTo(Descs(sl), sl[2]) \ {<<>>}
 Program(calls) == {calls[i].m : i \in 1..Len(calls)}
 Cases == UNION {{[calls |-> s] : s \in Scripts(sl)} : sl \in Slices}
 ASSUME \A sl \in Slices : sl[1] \in {"rich", "small", "multi"} /\ sl[2] \in 1..3 /\ sl[3] \in 1..3 /\ sl[4] \in 0..3
-\* coarse partition of the case space (lets TLC spread the enumeration over its workers)
-PartKey(c) == <<c.calls[1].m.kind, c.calls[1].m.hdr, c.calls[1].m.cols, c.calls[1].ops, Len(c.calls)>>
+
+\* ------------------------------------------------------------------------------------------ configurations
+(* The property quantifies over transport configurations; the history above takes no configuration argument, which
+   IS the property: for every case c and every configuration, the observed history conforms to Expected(c).
+   Base product (the statement's): the socket family and HTTP x response cap x compression x externalization.
+   Deployment knobs the statement does not name but which select different code paths of the same transports are
+   varied as a covering assignment (each run draws one value per knob); none of them may change the history:
+     val       IPC validation level of server and client           describe  __describe__ registered or not
+     sockext   externalization configured on a socket transport     shmseg    shm segment large / too small for the stream
+     sticky    sticky sessions enabled + calls made through a session view
+     cache     HTTP call-state cache warm / disabled (every turn opens the call token) / lb: two workers sharing the
+               token key, requests alternate between them (a cold worker serves every other turn)
+     level     zstd level            extz   codec of externalized objects
+     api       how an HTTP producer is consumed: iteration, or next_with_token() + resume_stream() on every batch
+     cside     compression enabled on both sides / only on the server / only on the client                      *)
+SocketTransports == {"pipe", "unix", "tcp", "shm", "subprocess", "pool", "pool-reuse"}
+Caps == {"none", "tiny", "large"}
+Comps == {"off", "zstd", "gzip", "gzips"}        \* gzip: the client accepts only gzip; gzips: the server negotiates only gzip
+Exts == {"off", "low"}
+ConfigSpace == [sockets |-> SocketTransports, caps |-> Caps, comps |-> Comps, exts |-> Exts,
+                val |-> {"none", "standard", "full"}, describe |-> BOOLEAN, sockext |-> Exts, shmseg |-> {"large", "small"},
+                sticky |-> BOOLEAN, cache |-> {"warm", "cold", "lb"}, level |-> {1, 3, 9},
+                extz |-> {"none", "zstd", "gzip"}, api |-> {"iter", "token"}, cside |-> {"both", "server", "client"}]
 
 \* ------------------------------------------------------------------------------------------ interpreter
 Intended == [lbr |-> TRUE, xdrop |-> {}]
@@ -233,15 +271,15 @@ ExpCall(call, d) ==
        \* tick / exchange.  A client that leaves without reading may (HTTP: the call itself fails) or may not
        \* (sockets: close() drains it) see that error.
        LET ev == (IF d.lbr THEN InitLogs(m) ELSE <<>>) \o <<ErrTok(m.ierr, "boom", 0)>>
-           reads == m.hdr \/ (call.ops # <<>> /\ Head(call.ops) \in {"t", "i"})
+           reads == m.hdr # "none" \/ (call.ops # <<>> /\ Head(call.ops) \in {"t", "i"})
        IN IF reads THEN Rec(m.kind, <<>>, FALSE, ev, "err", 0, ev)
           ELSE Rec(m.kind, <<>>, FALSE, <<>>, IF call.ops # <<>> /\ Head(call.ops) = "x" THEN "cancelled" ELSE "closed", 0, ev)
   ELSE IF m.kind = "prod" THEN
        LET F == InitLogs(m) \o ProdRun(m, 1, d)
            r == PConsume(F, Len(m.ilogs), call.ops, 0)
-       IN Rec("prod", <<>>, m.hdr, SubSeq(F, 1, r.pos), r.how, r.nt, F)
+       IN Rec("prod", <<>>, m.hdr # "none", SubSeq(F, 1, r.pos), r.how, r.nt, F)
   ELSE LET r == XConsume(m, 1, call.ops, InitLogs(m), 0, d)
-       IN Rec("exch", <<>>, m.hdr, r.ev, r.how, r.nt, r.ev)
+       IN Rec("exch", <<>>, m.hdr # "none", r.ev, r.how, r.nt, r.ev)
 
 Exp(c, d) == [i \in 1..Len(c.calls) |-> ExpCall(c.calls[i], d)]
 Expected(c) == Exp(c, Intended)
@@ -265,7 +303,7 @@ LogOrderPreserved(c, h) == \A i \in Calls(c) : LET e == h[i] IN
 DataInOrder(c, h) == \A i \in Calls(c) : LET e == h[i] IN
                      /\ IsPrefix(e.data, e.alldata)
                      /\ \A k \in 1..(Len(e.alldata) - 1) : e.alldata[k][2] < e.alldata[k + 1][2]
-HeaderIffDeclared(c, h) == \A i \in Calls(c) : h[i].hdr = (c.calls[i].m.hdr /\ c.calls[i].m.iend = "ok")
+HeaderIffDeclared(c, h) == \A i \in Calls(c) : h[i].hdr = (c.calls[i].m.hdr # "none" /\ c.calls[i].m.iend = "ok")
 \* a call ends in exactly one way; an error is the last thing seen; optional errors exist only for streams the client leaves
 OneEnding(c, h) == \A i \in Calls(c) : LET e == h[i] IN
                    /\ (e.err # <<>>) = (e.how = "err")
